@@ -122,6 +122,18 @@ func inRequestWait() int {
 	return n
 }
 
+// workerParked: the commit worker is blocked on db.Lock inside applyRequests.
+func workerParked() bool {
+	buf := make([]byte, 1<<20)
+	buf = buf[:runtime.Stack(buf, true)]
+	for _, g := range bytes.Split(buf, []byte("\n\n")) {
+		if bytes.Contains(g, []byte("NoKV.(*DB).applyRequests(")) && bytes.Contains(g, []byte("sync.(*RWMutex).Lock(")) {
+			return true
+		}
+	}
+	return false
+}
+
 func inCompactionCycle() bool {
 	buf := make([]byte, 1<<20)
 	buf = buf[:runtime.Stack(buf, true)]
@@ -292,7 +304,10 @@ func (c *seqCase) wait(slot int) string {
 			}
 			return "pending"
 		}
-		if c.held && !c.closed && inRequestWait() >= len(c.calls) {
+		// while the test holds db.Lock a call is pending only once the commit worker is parked in
+		// applyRequests: before that it could still take a request issued next into the batch it
+		// is collecting, and the batch boundaries would depend on timing
+		if c.held && !c.closed && inRequestWait() >= len(c.calls) && workerParked() {
 			select {
 			case r := <-ch:
 				delete(c.calls, slot)
